@@ -96,11 +96,20 @@ pub fn gen_plan(seed: u64, metas: &[Meta], corpus_len: usize) -> Plan {
         }
         threads.push(ops);
     }
-    let strategy = if r.chance(0.25) {
+    let strategy = if r.chance(0.2) {
+        // pile threads up inside one region (a hook site inside MLPG / GV / model lookup / vocoder)
+        Strategy::PileUp { site: *r.pick(&[1u32, 2, 3, 5, 13, 14, 15, 15, 15, 16, 17, 17, 19, 21]), count: nthreads.min(*r.pick(&[2usize, 3, 9, 12, 16])) }
+    } else if r.chance(0.25) {
         Strategy::Pct { change_points: vec![] } // filled in once the total number of yield points is known
     } else {
         Strategy::Random { mean: *r.pick(&[1.0, 2.0, 5.0, 20.0, 100.0, 1000.0, 10000.0]) }
     };
+    if let Strategy::PileUp { .. } = strategy {
+        // every thread starts with a synthesis on the shared engine so that all of them pass the site
+        for (t, ops) in threads.iter_mut().enumerate() {
+            ops.insert(0, TOp { task: t as u8, op: Op::Synth { e: 0, utt: utts[t % utts.len()].clone(), form: Form::Slice } });
+        }
+    }
     Plan { shared, threads, strategy, sched_seed: r.next_u64(), heavy }
 }
 
@@ -180,6 +189,7 @@ pub struct RunOut {
     pub digest: u64,
     pub tainted: bool,
     pub forced_unblock: u64,
+    pub max_piled: usize,
 }
 
 #[cfg(feature = "threads")]
@@ -200,6 +210,7 @@ pub fn run_plan(plan: &Plan, env: &mut Env, corpus: &Arc<Vec<String>>, forced: O
         digest: 0,
         tainted: false,
         forced_unblock: 0,
+        max_piled: 0,
     };
     // --- setup: build the shared engines on the main thread
     let mut shared: Vec<SharedEngine> = Vec::new();
@@ -354,6 +365,7 @@ pub fn run_plan(plan: &Plan, env: &mut Env, corpus: &Arc<Vec<String>>, forced: O
         out.diverged = st.diverged;
         out.tainted = st.tainted;
         out.forced_unblock = st.forced_unblock;
+        out.max_piled = st.max_piled;
     }
     let mut h = 0u64;
     for (t, n, f) in &out.schedule {
@@ -432,6 +444,9 @@ impl Plan {
                 "strategy" => {
                     if let Some(m) = v.strip_prefix("random:") {
                         p.strategy = Strategy::Random { mean: m.parse().ok()? };
+                    } else if let Some(c) = v.strip_prefix("pileup:") {
+                        let (a, b) = c.split_once(':')?;
+                        p.strategy = Strategy::PileUp { site: a.parse().ok()?, count: b.parse().ok()? };
                     } else if let Some(c) = v.strip_prefix("pct:") {
                         p.strategy = Strategy::Pct { change_points: if c.is_empty() { vec![] } else { c.split(',').map(|x| x.parse().ok()).collect::<Option<Vec<u64>>>()? } };
                     }
@@ -546,7 +561,7 @@ pub fn cmd_l2a(args: &crate::Args) -> i32 {
                         out.forced_unblock,
                         out.stats.vacuous,
                         out.diverged as u8,
-                        0,
+                        out.max_piled,
                         sites.join(","),
                         out.harness.as_deref().map(clean).unwrap_or_default(),
                         out.violation.as_ref().map(|v| format!("{}\x1f{}\x1f{}", v.oracle, clean(&v.class), clean(&v.detail))).unwrap_or_default(),
@@ -660,6 +675,9 @@ pub fn cmd_l2a(args: &crate::Args) -> i32 {
             }
             let strategy = if let Some(m) = f[8].strip_prefix("random:") {
                 Strategy::Random { mean: m.parse().unwrap_or(1.0) }
+            } else if let Some(c) = f[8].strip_prefix("pileup:") {
+                let (a, b) = c.split_once(':').unwrap_or(("0", "0"));
+                Strategy::PileUp { site: a.parse().unwrap_or(0), count: b.parse().unwrap_or(0) }
             } else {
                 Strategy::Pct { change_points: f[8].trim_start_matches("pct:").split(',').filter_map(|x| x.parse().ok()).collect() }
             };
@@ -688,6 +706,7 @@ pub fn cmd_l2a(args: &crate::Args) -> i32 {
                 digest: u64::from_str_radix(f[3], 16).unwrap_or(0),
                 tainted: f[9] == "1",
                 forced_unblock: f[10].parse().unwrap_or(0),
+                max_piled: f[13].parse().unwrap_or(0),
             };
             let plan = gen_plan(mix(&[seed, 0x12a, i]), &pools.plain_metas, corpus_len);
             all.push(Sum { i, out, plan, det: (0, 0) });
@@ -725,7 +744,7 @@ pub fn cmd_l2a(args: &crate::Args) -> i32 {
         yields += s.out.total_yields;
         keys += s.out.keys_compared;
         *nthreads_hist.entry(format!("{}", s.out.nthreads)).or_insert(0) += 1;
-        *strat_hist.entry(match &s.out.strategy { Strategy::Random { mean } => format!("random:{}", mean), Strategy::Pct { change_points } => format!("pct:d={}", change_points.len()) }).or_insert(0) += 1;
+        *strat_hist.entry(match &s.out.strategy { Strategy::Random { mean } => format!("random:{}", mean), Strategy::Pct { change_points } => format!("pct:d={}", change_points.len()), Strategy::PileUp { site, .. } => format!("pileup:site{}", site) }).or_insert(0) += 1;
         if let Some(h) = &s.out.harness {
             if harness.len() < 5 {
                 harness.push(format!("run {}: {}", s.i, h));
@@ -886,6 +905,8 @@ pub fn cmd_l2a(args: &crate::Args) -> i32 {
         .set("waveform_keys_compared", J::u(keys))
         .set("threads_per_run", J::from_counts(&nthreads_hist))
         .set("strategies", J::from_counts(&strat_hist))
+        .set("max_threads_piled_up_at_one_site", J::u(all.iter().map(|s| s.out.max_piled as u64).max().unwrap_or(0)))
+        .set("plans_with_9_or_more_threads_piled_up", J::u(all.iter().filter(|s| s.out.max_piled >= 9).count() as u64))
         .set("tainted_runs_blocking_detected", J::u(all.iter().filter(|s| s.out.tainted).count() as u64))
         .set("forced_unblocks", J::u(all.iter().map(|s| s.out.forced_unblock).sum()))
         .set("determinism_pairs_checked", J::u(det_pairs))
